@@ -30,7 +30,7 @@ void c19_quoted(pbt::Source& src) {
     if (long_mode()) {
         // scale classes: few long fields (13..5000 bytes) / hundreds to thousands (rarely > 65536) of short fields with
         // now and then a long one; lengths and letters expanded from a drawn seed
-        int cls = (int)src.weighted({4, 3, 3, 3, 1});
+        int cls = (int)src.weighted({40, 30, 30, 30, 2});
         if (cls == 0) {
             for (size_t i = 0; i < k; ++i) v.push_back(src.chance(160) ? gen_long(src, alphabet) : gen_over(src, alphabet, 5));
         } else {
